@@ -14,6 +14,14 @@
        unbiased estimates of the unsampled counterfactual increments when no chance
        infoset repeats on a path; that condition is necessary ([C04_repeat_is_biased]).
 
+    4. (round 3) over a whole run of T iterations, with the strategy of every iteration depending on
+       the earlier draws: the sampled increment of iteration t has, conditionally on every history,
+       the true counterfactual increment at the reached state as its mean (martingale differences,
+       orthogonal to every function of the past), hence E[sum of sampled increments] = E[sum of
+       true increments along the sampled trajectory] for every T, both methods; for the vanilla
+       parameters the left side is the expected cumulative regret the solver holds
+       ([theories/SampledMartingale.v], [theories/ExternalMartingale.v]).
+
     NOT proved: the probabilistic clause ("with overwhelming probability the *true*
     regret of the returned profile is below D*N*sqrt(A)/sqrt(T)") — concentration over
     the sampling history is out of scope. *)
@@ -21,7 +29,7 @@ From Coq Require Import Reals List Bool NArith.
 From Cfr.theories Require Import Num RInst Tree GameWF Valid Strat Eval Solve SolveValidProofs
      LoopProofs Incr IterChar RmPotential CfMass CfrRate ExtIncr SampledRate ExternalRate
      Unbiased ExternalUnbiased VanillaMulti ParallelProofs ExternalMulti ExternalProofs
-     SampledMultiRate.
+     SampledMultiRate SampledMartingale ExternalMartingale.
 From Coq Require Import Permutation.
 Import ListNotations.
 Open Scope R_scope.
@@ -149,6 +157,75 @@ Theorem C04_repeat_is_biased :
                                                 rep_sg rep_tree 1 1 1)) = 1 / 4 /\
   cfr_inc rep_chance rep_sg true 0 0 rep_tree 1 1 1 = 1 / 8.
 Proof. exact repeat_is_biased. Qed.
+(** 6. (round 3) a whole run: the sampled regret increments are a martingale-difference estimator of the true
+    counterfactual regret increments along the trajectory the sampled run actually plays *)
+(** conditional (martingale-difference) form: whatever the history [ds] of the earlier
+    iterations and the iteration number, the sampled increment of the next chance-sampled
+    iteration has the true counterfactual increment at the reached state as its mean *)
+Theorem C04_sampled_md_step :
+  forall (g : @game RNum) (p : @params RNum),
+    WFgame g -> ChanceOK g -> NoRepeat (g_root g) ->
+    forall pl i a it ds,
+      expect (g_chance g) (fun d => sampled_inc g pl i a it (run_state g p ds) d) =
+      true_inc g pl i a (run_state g p ds).
+Proof. exact sampled_md_step. Qed.
+
+Theorem C04_sampled_md_orthogonal :
+  forall (g : @game RNum) (p : @params RNum),
+    WFgame g -> ChanceOK g -> NoRepeat (g_root g) ->
+    forall pl i a n (h : list (list nat) -> R),
+      expect_run (g_chance g) (S n)
+        (fun ds => h (firstn n ds) * (sampled_inc_at g p pl i a ds n - true_inc_at g p pl i a ds n)) = 0.
+Proof. exact sampled_md_orthogonal. Qed.
+
+Theorem C04_sampled_run_tower :
+  forall (g : @game RNum) (p : @params RNum),
+    WFgame g -> ChanceOK g -> NoRepeat (g_root g) ->
+    forall pl i a T,
+      expect_run (g_chance g) T (fun ds => sum_upto T (sampled_inc_at g p pl i a ds)) =
+      expect_run (g_chance g) T (fun ds => sum_upto T (true_inc_at g p pl i a ds)).
+Proof. exact sampled_run_tower. Qed.
+
+Theorem C04_sampled_run_regret_tower :
+  forall (g : @game RNum), WFgame g -> ChanceOK g -> NoRepeat (g_root g) ->
+  forall pl i a T,
+    (i < length (arities g pl))%nat -> (a < nth i (arities g pl) O)%nat ->
+    expect_run (g_chance g) T
+      (fun ds => nth a (cum_regret (@ri_get RNum (run_state g (@p_vanilla RNum) ds) pl i)) 0) =
+    expect_run (g_chance g) T (fun ds => sum_upto T (true_inc_at g (@p_vanilla RNum) pl i a ds)).
+Proof. exact sampled_run_regret_tower. Qed.
+
+Theorem C04_run_state_is_solve_loop :
+  forall (g : @game RNum) (p : @params RNum) ds (stop : R -> bool),
+    (forall b, stop b = false) ->
+    fst (fst (@solve_loop RNum g Sampled (draw_run ds) p stop (length ds) 1
+                          (@init_state RNum g) None 0%N)) = run_state g p ds.
+Proof. exact run_state_solve_loop. Qed.
+
+Theorem C04_external_md_step :
+  forall (g : @game RNum) (p : @params RNum),
+    WFgame g -> PerfectRecall g -> ChanceOK g -> NoRepeat (g_root g) ->
+    forall me i a it st,
+      InvA (arities g true) (arities g false) st ->
+      expect_iter g p it st (ext_sampled_inc g p me i a it st) =
+      expect_iter g p it st (ext_true_inc g p me i a it st).
+Proof. exact ext_md_step. Qed.
+
+Theorem C04_external_run_tower :
+  forall (g : @game RNum) (p : @params RNum),
+    WFgame g -> PerfectRecall g -> ChanceOK g -> NoRepeat (g_root g) ->
+    forall me i a n,
+      expect_run_ext g p n 1 (@init_state RNum g) (ext_sampled_sum g p me i a 1 (@init_state RNum g)) =
+      expect_run_ext g p n 1 (@init_state RNum g) (ext_true_sum g p me i a 1 (@init_state RNum g)).
+Proof. exact ext_run_tower. Qed.
+
+Print Assumptions C04_sampled_md_step.
+Print Assumptions C04_sampled_md_orthogonal.
+Print Assumptions C04_sampled_run_tower.
+Print Assumptions C04_sampled_run_regret_tower.
+Print Assumptions C04_run_state_is_solve_loop.
+Print Assumptions C04_external_md_step.
+Print Assumptions C04_external_run_tower.
 Print Assumptions C04_sampled_bound_rate.
 Print Assumptions C04_sampled_bound_rate_per_player.
 Print Assumptions C04_external_bound_rate.
